@@ -898,6 +898,7 @@ fn gen_reply(rng: &mut Rng, cfg: &Cfg, run: &Run, srv: &mut Server, now: u64) ->
             if !rng.chance(1, 10) { attrs.push(A::Nonce(srv.nonce, cookie)) }
             if let Some(l) = &srv.algs { attrs.push(A::PwdAlgs(l.clone())) }
             if rng.chance(1, 8) { attrs.push(A::Realm(srv.realm + 5)) } // duplicate realm: the first one wins
+            if rng.chance(1, 6) { attrs.push(A::Nonce(srv.nonce + 50, *rng.pick(&[0u32, 1, 2, 3, 4, 5]))) } // duplicate nonce with other feature bits: the first one wins
         } else if code == 438 {
             srv.nonce += 1;
             if !rng.chance(1, 8) { attrs.push(A::Nonce(srv.nonce, *rng.pick(&[0u32, 1, 2, 6]))) }
@@ -941,7 +942,7 @@ fn gen_reply(rng: &mut Rng, cfg: &Cfg, run: &Run, srv: &mut Server, now: u64) ->
 /// long send / response sequences for the RTO estimator (C15): delays from 1 ms to beyond the first retransmission,
 /// idle gaps around the 600 s staleness boundary
 fn gen_rtt_history(rng: &mut Rng, out: &mut Out, stats: &mut HashMap<String, u64>) {
-    let rto = *rng.pick(&[500_000_000u64, 100_000_000, 1_000_000_000, 37_000_001]);
+    let rto = *rng.pick(&[500_000_000u64, 100_000_000, 1_000_000_000, 37_000_001, 600_000_000, 300_000_000]);
     let cfg = Cfg { reliable: false, rto, rm: 16, rc: 7, gran: *rng.pick(&[1_000_000u64, 0, 50_000_000]), limit: 10, mech: 0, fp: false, defaults: false };
     let mut run = Run::new(cfg.clone());
     out.rec(&run.header());
@@ -971,9 +972,11 @@ fn gen_rtt_history(rng: &mut Rng, out: &mut Out, stats: &mut HashMap<String, u64
         run.apply(out, &Op::Send { now, method: 1, room: true, attrs: vec![] });
         let Some(&id) = run.outstanding.last() else { continue };
         // response delay: mostly well below the RTO, sometimes beyond the first retransmission
-        let delay = match rng.below(8) {
+        let delay = match rng.below(9) {
             0 => rng.range(1, 3) * 1_000_000_000,
             1 => 1_000_000,
+            // a first sample of exactly a third of the configured RTO makes the computed RTO equal the configured one
+            8 => (cfg.rto / 3).max(1),
             _ => rng.range(1_000_000, 400_000_000),
         };
         let mut t = now;
@@ -1016,6 +1019,9 @@ fn gen_lt_history(rng: &mut Rng, out: &mut Out, stats: &mut HashMap<String, u64>
         let cookie = if srv.algs.is_some() { *rng.pick(&[2u32, 4, 2, 4, 1]) } else { *rng.pick(&[0u32, 1, 3, 0, 3]) };
         let mut a = vec![A::ErrorCode(401), A::Realm(srv.realm), A::Nonce(srv.nonce, cookie)];
         if let Some(l) = &srv.algs { a.push(A::PwdAlgs(l.clone())) }
+        // a second NONCE whose cookie carries other feature bits (the first one counts), sometimes a second REALM
+        if rng.chance(1, 4) { a.push(A::Nonce(srv.nonce + 50, *rng.pick(&[0u32, 1, 2, 3, 4]))) }
+        if rng.chance(1, 8) { a.push(A::Realm(srv.realm + 5)) }
         a
     };
     let signed = |srv: &Server, mut a: Vec<A>, key: KeyD| -> Vec<A> { if srv.algs.is_some() { a.push(A::Sha(key)) } else { a.push(A::Mi(key)) } a };
